@@ -502,7 +502,7 @@ def check_request(world, op, req, exp, outcome, after):
                         f"op {k}: headers {req['headers']!r}->{h0!r} params {req['params']!r}->{p0!r} data {req['data']!r}->{d0!r}")
     # result
     raw = bool(op.get("raw"))
-    must_fail = fault in ("http_error", "url_error", "timeout", "reset_on_read", "truncated") or (
+    must_fail = fault in hw.HARD_FAULTS or (
         not raw and fault in ("not_utf8", "not_json"))
     if must_fail:
         if outcome[0] != "exc":
